@@ -13,6 +13,7 @@ import (
 	"verifharness/checks/c07"
 	"verifharness/checks/c08"
 	"verifharness/checks/c09"
+	"verifharness/checks/c14"
 	"verifharness/checks/c18"
 	"verifharness/checks/c19"
 	"verifharness/core"
@@ -30,6 +31,7 @@ var table = map[string]entry{
 	"C07": {"exploration", c07.Run},
 	"C08": {"exploration", c08.Run},
 	"C09": {"fault_enumeration", c09.Run},
+	"C14": {"exploration", c14.Run},
 	"C18": {"exploration", c18.Run},
 	"C19": {"exploration", c19.Run},
 }
